@@ -752,7 +752,11 @@ pub fn main(opts: &Opts) -> ! {
             re = 1;
             let o2 = run_case(&case);
             if o2.hash != obs.hash {
-                mismatch = Some(format!("case {}: event hash {:x} vs {:x}", i, obs.hash, o2.hash));
+                // second opinion from two fresh processes (see `fresh_processes_agree`)
+                match fresh_processes_agree(&["child".into(), "c16-hash".into(), opts.seed.to_string(), i.to_string()]) {
+                    Ok(true) => c.inc("determinism: in-process re-execution differed, two fresh processes agreed (the code under test keeps state across runs)"),
+                    other => mismatch = Some(format!("case {}: event hash {:x} vs {:x}; fresh processes: {:?}", i, obs.hash, o2.hash, other)),
+                }
             }
         }
         let mut a = acc.lock().unwrap();
@@ -905,4 +909,12 @@ pub fn main(opts: &Opts) -> ! {
     }
     .write();
     Verdict { property: "C16".into(), violations, known: vec![] }.finish()
+}
+
+/// `verif child c16-hash <seed> <case>`: fingerprint of one search case in a fresh process.
+pub fn child_case_hash(seed: u64, i: u64) -> ! {
+    let case = gen_case(seed, i);
+    let obs = run_case(&case);
+    println!("{:x}", obs.hash);
+    std::process::exit(0)
 }
